@@ -84,17 +84,18 @@ theorem cmd_chg (na : Bool) (g : Chg) (st : St SimSt) (q : List Behav) (hr : Rea
     o.2.warns = st.warns ++ g.warns ∧
     (g.valid = true → o.1 = .ok () ∧ Ready o.2 ∧ o.2.dev.queue = q) ∧
     (g.valid = false → ∃ ci R out, o.1 = .abort (.unexpectedOutput ci R) ∧ g.bad = some (ci, out) ∧
-        neLines R = neLines out) := by
+        neLines R = neLines out) ∧
+    (o.2.dev.parts = [] ∧ o.2.reloadActive = true) := by
   cases g with
   | one c b =>
     have h := cmd_one na st c b q hr hq hc.cmds (hc.behavs b (by simp [Chg.behavs]))
-    refine ⟨h.1, h.2.1, h.2.2.1, fun hv => ?_⟩
-    obtain ⟨R, h1, h2⟩ := h.2.2.2 hv
+    refine ⟨h.1, h.2.1, h.2.2.1, fun hv => ?_, h.2.2.2.2⟩
+    obtain ⟨R, h1, h2⟩ := h.2.2.2.1 hv
     exact ⟨c, R, b.out, h1, by simp [Chg.bad, Chg.valid] at *; simp [hv], h2⟩
   | two c1 c2 b1 b2 =>
     have h := cmd_two na st c1 c2 b1 b2 q hr hq hc.cmds.1 hc.cmds.2
       (hc.behavs b1 (by simp [Chg.behavs])) (hc.behavs b2 (by simp [Chg.behavs])) hn
-    refine ⟨?_, ?_, ?_, ?_⟩
+    refine ⟨?_, ?_, ?_, ?_, h.2.2.2.2.2⟩
     · simpa [Chg.valid, Chg.need, Chg.cmd] using h.1
     · simpa [Chg.warns, Chg.cmd, List.append_assoc] using h.2.1
     · intro hv
@@ -108,7 +109,7 @@ theorem cmd_chg (na : Bool) (g : Chg) (st : St SimSt) (q : List Behav) (hr : Rea
       | true =>
         have hv2 : validOut b2.out = false := by
           simp only [Chg.valid, hv1, Bool.true_and] at hv; exact hv
-        obtain ⟨R, h1, h2⟩ := h.2.2.2.2 hv1 hv2
+        obtain ⟨R, h1, h2⟩ := h.2.2.2.2.1 hv1 hv2
         exact ⟨c2, R, b2.out, h1, by simp [Chg.bad, hv1, hv2], h2⟩
 
 /-- **the change loop against the scripted device** -/
@@ -119,11 +120,13 @@ theorem loop_spec (na : Bool) (gs : List Chg) (st : St SimSt) (q : List Behav) (
     o.2.warns = st.warns ++ specWarns gs ∧
     (specOk gs = true → o.1 = .ok () ∧ Ready o.2 ∧ o.2.dev.queue = q) ∧
     (specOk gs = false → ∃ ci R out, o.1 = .abort (.unexpectedOutput ci R) ∧
-        firstBad gs = some (ci, out) ∧ neLines R = neLines out) := by
+        firstBad gs = some (ci, out) ∧ neLines R = neLines out) ∧
+    (o.2.dev.parts = [] ∧ o.2.reloadActive = true) := by
   induction gs generalizing st with
   | nil =>
     refine ⟨by simp [changeLoop, forEach, pureM, specTrace], by simp [changeLoop, forEach, pureM, specWarns],
-      fun _ => ⟨rfl, hr, by simpa [changeLoop, forEach, pureM] using hq⟩, fun h => by cases h⟩
+      fun _ => ⟨rfl, hr, by simpa [changeLoop, forEach, pureM] using hq⟩, ?_, ⟨hr.parts, hr.active⟩⟩
+    intro h; cases h
   | cons g gs ih =>
     intro o
     have hg := hc g (by simp)
@@ -138,7 +141,7 @@ theorem loop_spec (na : Bool) (gs : List Chg) (st : St SimSt) (q : List Behav) (
       rw [bindM_snd_of_ok _ _ _ () hok] at ho
       have h2 := ih (cmd (simDevice [] na) true g.cmd st).2 hr1 hq2 (fun x hx => hc x (by simp [hx]))
       rw [ho]
-      refine ⟨?_, ?_, ?_, ?_⟩
+      refine ⟨?_, ?_, ?_, ?_, h2.2.2.2.2⟩
       · rw [h2.1, h1.1]; simp [specTrace, hv]
       · rw [h2.2.1, h1.2.1]; simp [specWarns, hv]
       · intro hs
@@ -146,13 +149,13 @@ theorem loop_spec (na : Bool) (gs : List Chg) (st : St SimSt) (q : List Behav) (
         exact h2.2.2.1 this
       · intro hs
         have : specOk gs = false := by simp only [specOk, List.all_cons, hv, Bool.true_and] at hs; exact hs
-        obtain ⟨ci, R, out, e1, e2, e3⟩ := h2.2.2.2 this
+        obtain ⟨ci, R, out, e1, e2, e3⟩ := h2.2.2.2.1 this
         exact ⟨ci, R, out, e1, by simp [firstBad, Chg.bad_none_of_valid g hv, e2], e3⟩
     | false =>
-      obtain ⟨ci, R, out, e1, e2, e3⟩ := h1.2.2.2 hv
+      obtain ⟨ci, R, out, e1, e2, e3⟩ := h1.2.2.2.1 hv
       rw [bindM_of_abort _ _ _ _ e1] at ho
       rw [ho]
-      refine ⟨?_, ?_, ?_, ?_⟩
+      refine ⟨?_, ?_, ?_, ?_, h1.2.2.2.2⟩
       · rw [h1.1]; simp [specTrace, hv]
       · rw [h1.2.1]; simp [specWarns, hv]
       · intro hs; simp [specOk, hv] at hs
